@@ -2117,7 +2117,9 @@ impl<'a, R: FileManager> FrontendCtx<'a, R> {
             Some(its) => {
                 let mut args = vec![];
                 for ty in &its.params {
-                    let arg_ty = self.extract_type(ty, file.clone())?;
+                    // the arguments are written where the reference is written (`anchor.f`), which
+                    // is not `file` for `import("./x").T<Local>`
+                    let arg_ty = self.extract_type(ty, anchor.f.clone())?;
                     args.push(arg_ty);
                 }
                 args
@@ -2824,7 +2826,7 @@ impl<'a, R: FileManager> FrontendCtx<'a, R> {
                         Some(its) => {
                             let mut args = vec![];
                             for ty in &its.params {
-                                let arg_ty = self.extract_type(ty, resolved.clone())?;
+                                let arg_ty = self.extract_type(ty, file.clone())?;
                                 args.push(arg_ty);
                             }
                             args
